@@ -1481,6 +1481,24 @@ int NifFile::Save(std::ostream& file, const NifSaveOptions& options) {
 		if (options.sortBlocks)
 			PrettySortBlocks();
 
+		// The block sizes in the header are overwritten after all blocks were written.
+		// A stream that can't seek needs them beforehand: measure the blocks without writing them.
+		const bool canSeek = file.tellp() != std::streampos(-1);
+		if (!canSeek) {
+			struct NullBuffer : std::streambuf {
+				int_type overflow(int_type c) override { return traits_type::not_eof(c); }
+				std::streamsize xsputn(const char*, std::streamsize n) override { return n; }
+			} nullBuffer;
+
+			std::ostream nullStream(&nullBuffer);
+			NiOStream sizeStream(&nullStream, &hdr);
+			for (uint32_t i = 0; i < hdr.GetNumBlocks(); i++) {
+				sizeStream.InitBlockSize();
+				blocks[i]->Put(sizeStream);
+				hdr.SetBlockSize(i, static_cast<uint32_t>(sizeStream.GetBlockSize()));
+			}
+		}
+
 		hdr.Put(stream);
 		stream.InitBlockSize();
 
@@ -1499,14 +1517,14 @@ int NifFile::Save(std::ostream& file, const NifSaveOptions& options) {
 
 		// Get previous stream pos of block size array and overwrite
 		std::streampos blockSizePos = hdr.GetBlockSizeStreamPos();
-		if (blockSizePos != std::streampos()) {
+		if (canSeek && blockSizePos != std::streampos()) {
 			file.seekp(blockSizePos);
 
 			for (uint32_t i = 0; i < hdr.GetNumBlocks(); i++)
 				stream << static_cast<uint32_t>(blockSizes[i]);
-
-			hdr.ResetBlockSizeStreamPos();
 		}
+
+		hdr.ResetBlockSizeStreamPos();
 	}
 	else
 		return 1;
